@@ -41,11 +41,10 @@ f741aba:C11
 9944225:C08
 83acbbb:C04
 95e93be:C08
-eae3b07:C11
+f0e8e48+eae3b07:C11
 e2a2e4c:C11
 27f3a2f:C03
 da05acb:C06
-9a95cc4:C18,C05,C06
 f907567:C03
 3fbece2:C06,C05,C18
 f0e8e48:C09
@@ -57,7 +56,7 @@ f0e8e48:C09
 "
 # Fixes whose lines were rewritten by later fixes can no longer be reverted on HEAD; for them
 # tools/revert_hist.sh compares /repo's tree at the commit with the tree at its parent (see there).
-HIST="9cbccb0:C11 4ab7118:C04 5ed6555:C04 554f99c:C18 1a12fdf:C18 cc1a74c:C18 879059a:C18 4f1e3aa:C18 71b549e:C11 da90b3f:C11 6a27050:C18 01c9b75:C11 3e38392:C11"
+HIST="9cbccb0:C11 4ab7118:C04 5ed6555:C04 554f99c:C18 1a12fdf:C18 cc1a74c:C18 879059a:C18 4f1e3aa:C18 71b549e:C11 da90b3f:C11 6a27050:C18 01c9b75:C11 3e38392:C11 9a95cc4:C18"
 if [ "${1:-}" = "--hist" ]; then shift; : > selftest/revert_hist_report.txt; exec tools/revert_hist.sh ${*:-$HIST}; fi
 if [ -n "$(git -C /repo status --porcelain)" ]; then echo "/repo is not clean"; exit 2; fi
 mkdir -p selftest
